@@ -53,6 +53,8 @@ GROUPS = {
     ("src/arch/all/packedpair/mod.rs", r"impl Pair \{", "Pair", ["with_indices", "index1", "index2"])],
   "Searcher": [
     ("src/memmem/searcher.rs", None, "searcher", ["do_packed_search"])],
+  "Shift": [
+    ("src/arch/all/twoway.rs", r"impl Shift \{", "Shift", ["forward", "reverse"])],
   "IterHint": [
     ("src/memmem/mod.rs", r"impl<'h, 'n> Iterator for FindIter<'h, 'n> \{", "FindIter", ["size_hint"]),
     ("src/arch/generic/memchr.rs", r"impl<'h> Iter<'h> \{", "Iter", ["size_hint"])],
@@ -77,7 +79,10 @@ STRUCTS = {
     "Pair": {"Pair": "src/arch/all/packedpair/mod.rs"},
     "Searcher": {},
     "IterHint": {},
+    "Shift": {},
 }
+# enums read from the source: group -> {name: file}
+ENUMS = {"Shift": {"Shift": "src/arch/all/twoway.rs"}}
 VIEW_GROUPS = {"IterHint": ["FindIter", "Iter"]}
 # type hints for locals whose type Rust infers backwards
 LOCAL_HINTS = {("ApproximateByteSet", "new", "bits"): "u64"}
@@ -249,6 +254,19 @@ class P:
         if v in ("let", "const"):
             self.eat()
             self.accept("mut")
+            if self.peek() == "(":
+                self.eat("(")
+                names = []
+                while self.peek() != ")":
+                    self.accept("mut")
+                    names.append(self.eat())
+                    if not self.accept(","):
+                        break
+                self.eat(")")
+                self.eat("=")
+                e = self.expr()
+                self.eat(";")
+                return ("lettuple", names, e)
             name = self.eat()
             ty = None
             if self.accept(":"):
@@ -348,6 +366,8 @@ class P:
     def postfix(self, nostruct):
         e = self.primary(nostruct)
         while True:
+            if self.peek() == "." and self.peek(1) == ".":
+                return e
             if self.peek() == ".":
                 self.eat()
                 name = self.eat()
@@ -357,6 +377,22 @@ class P:
                     e = ("field", e, name)
             elif self.peek() == "(" and e[0] == "path":
                 e = ("call", e[1], self.args())
+            elif self.peek() == "[":
+                self.eat("[")
+                lo = hi = None
+                if self.peek() == "." and self.peek(1) == ".":
+                    self.eat("."); self.eat(".")
+                    hi = self.expr()
+                    e = ("range", e, None, hi)
+                else:
+                    lo = self.expr()
+                    if self.peek() == "." and self.peek(1) == ".":
+                        self.eat("."); self.eat(".")
+                        hi = None if self.peek() == "]" else self.expr()
+                        e = ("range", e, lo, hi)
+                    else:
+                        e = ("index", e, lo)
+                self.eat("]")
             else:
                 return e
 
@@ -465,6 +501,7 @@ class Tr:
         self.n = 0
         self.selfty = prefix if fn["selfmode"] else None
         self.aliases = VIEWS[prefix][2] if prefix in VIEWS else {}
+        self.enums = {}
 
     def fresh(self, base="t"):
         self.n += 1
@@ -572,6 +609,37 @@ class Tr:
             return self.mcall(e, env, want)
         if k == "call":
             return self.call(e, env, want)
+        if k == "struct" and len(e[1]) == 2 and e[1][0] in self.enums:
+            en, var = e[1]
+            vs = dict(self.enums[en])
+            if var not in vs:
+                raise TieBroken(f"{w}: enum {en} has no variant {var}")
+            given = dict(e[2])
+            if set(given) != set(f for f, _ in vs[var]):
+                raise TieBroken(f"{w}: variant {en}::{var} does not list exactly its fields")
+            rs = [self.expr(given[f], env, fty) for f, fty in vs[var]]
+            return self.bind_all(rs, lambda ps: R(f"({en}_{var}" + "".join(" " + p.text for p in ps) + ")", True, en))
+        if k == "range":
+            r0 = self.expr(e[1], env)
+            def fr(p0):
+                if p0.ty != "&[u8]":
+                    raise TieBroken(f"{w}: range indexing of type {p0.ty}")
+                if e[2] is None and e[3] is not None:
+                    rh = self.expr(e[3], env, "usize")
+                    return self.bind(rh, lambda ph: R(f"(slice_to_chk {p0.text} {ph.text})", False, "&[u8]"))
+                if e[2] is not None and e[3] is None:
+                    rl = self.expr(e[2], env, "usize")
+                    return self.bind(rl, lambda pl: R(f"(slice_from_chk {p0.text} {pl.text})", False, "&[u8]"))
+                raise TieBroken(f"{w}: only [..n] and [n..] ranges are supported")
+            return self.bind(r0, fr)
+        if k == "index":
+            r0 = self.expr(e[1], env)
+            ri = self.expr(e[2], env, "usize")
+            def fi(ps):
+                if ps[0].ty != "&[u8]":
+                    raise TieBroken(f"{w}: indexing of type {ps[0].ty}")
+                return R(f"(idx_chk {ps[0].text} {ps[1].text})", False, "u8")
+            return self.bind_all([r0, ri], fi)
         if k == "struct":
             name = e[1][-1]
             st = self.structs.get(name)
@@ -693,6 +761,13 @@ class Tr:
     def mcall(self, e, env, want):
         recv, name, args = e[1], e[2], e[3]
         w = self.what
+        if (name == "unwrap_or" and len(args) == 1 and recv[0] == "call" and len(recv[1]) == 2
+                and recv[1][1] == "try_from" and recv[1][0] in INT_BITS and len(recv[2]) == 1):
+            to = recv[1][0]
+            rv = self.expr(recv[2][0], env)
+            rd = self.expr(args[0], env, to)
+            return self.bind_all([rv, rd], lambda ps: R(
+                f"(if (N.leb {ps[0].text} (tmax {bits_of(to, w)})) then {ps[0].text} else {ps[1].text})", True, to))
         al = self.aliases.get(self.render(e))
         if al:
             return self.expr(("field", ("path", ["self"]), al), env, want)
@@ -701,6 +776,9 @@ class Tr:
         def f(p):
             if p.ty == "&[u8]" and name == "len" and not args:
                 return R(f"(N.of_nat (length {p.text}))", True, "usize")
+            if p.ty == "&[u8]" and name == "split_at" and len(args) == 1:
+                ra = self.expr(args[0], env, "usize")
+                return self.bind(ra, lambda pa: R(f"(split_at_chk {p.text} {pa.text})", False, "(&[u8],&[u8])"))
             if p.ty in INT_BITS or p.ty == "?":
                 if p.ty == "?":
                     raise TieBroken(f"{w}: method {name} on an untyped literal")
@@ -746,6 +824,19 @@ class Tr:
         if len(path) == 2 and path[0] in INT_BITS and path[1] == "from" and len(args) == 1:
             r = self.expr(args[0], env)
             return self.bind(r, lambda p: R(p.text, True, path[0]))
+        if path[-2:] in (["cmp", "max"], ["cmp", "min"]) and len(args) == 2:
+            ra = self.expr(args[0], env, want)
+            rb = self.expr(args[1], env, ra.ty if ra.ty != "?" else want)
+            fn_ = "N.max" if path[-1] == "max" else "N.min"
+            return self.bind_all([ra, rb], lambda ps: R(f"({fn_} {ps[0].text} {ps[1].text})", True,
+                                                         ps[0].ty if ps[0].ty != "?" else ps[1].ty))
+        if path in (["is_suffix"], ["is_prefix"]) and len(args) == 2:
+            rs_ = [self.expr(a, env) for a in args]
+            def fs(ps):
+                if any(p.ty != "&[u8]" for p in ps):
+                    raise TieBroken(f"{w}: {path[0]} on non-slices")
+                return R(f"({path[0]}_l {ps[0].text} {ps[1].text})", True, "bool")
+            return self.bind_all(rs_, fs)
         if path == ["Some"] and len(args) == 1:
             inner = None
             if want and want.startswith("Option<"):
@@ -852,6 +943,21 @@ class Tr:
                 r2 = cont(env2)
                 return R(f"(let {v} := {p.text} in\n  {r2.mon()})", False, "ret")
             return self.bind(r, f)
+        if s[0] == "lettuple":
+            r = self.expr(s[2], env)
+            def ft(p):
+                if not (p.ty.startswith("(") and len(split_tuple(p.ty)) == len(s[1])):
+                    raise TieBroken(f"{w}: tuple pattern does not match type {p.ty}")
+                tys = split_tuple(p.ty)
+                if len(tys) != 2:
+                    raise TieBroken(f"{w}: only pairs can be destructured")
+                env2 = {k_: list(x) for k_, x in env.items()}
+                vs = [self.fresh(n_) for n_ in s[1]]
+                for n_, v, ty in zip(s[1], vs, tys):
+                    env2.setdefault(n_, []).append((v, ty))
+                r2 = cont(env2)
+                return R(f"(let {vs[0]} := fst {p.text} in let {vs[1]} := snd {p.text} in\n  {r2.mon()})", False, "ret")
+            return self.bind(r, ft)
         if s[0] == "return":
             if s[1] is None:
                 return self.finish(R("tt", True, "()"), env)
@@ -1075,6 +1181,26 @@ def translate(repo, group):
             if not re.search(r"\b%s\s*:" % re.escape(f), sbody):
                 raise TieBroken(f"{vrel}: struct {vname} has no field {f} any more")
         structs[vname] = vfields
+    enums = {}
+    for ename, erel in ENUMS.get(group, {}).items():
+        em = re.search(r"\benum %s\s*\{" % re.escape(ename), src(erel))
+        if not em:
+            raise TieBroken(f"{erel}: enum {ename} not found")
+        ebody = src(erel)[em.end():match_brace(src(erel), em.end() - 1, ename) - 1]
+        variants = []
+        for vm in re.finditer(r"([A-Z][A-Za-z0-9]*)\s*(?:\{([^}]*)\})?\s*(?:,|$)", ebody.strip()):
+            flds = []
+            for part in (vm.group(2) or "").split(","):
+                part = part.strip()
+                if part:
+                    fm = re.fullmatch(r"([a-z_0-9]+)\s*:\s*(\S+)", part)
+                    if not fm:
+                        raise TieBroken(f"{erel}: cannot read field {part!r} of {ename}::{vm.group(1)}")
+                    flds.append((fm.group(1), fm.group(2)))
+            variants.append((vm.group(1), flds))
+        if not variants:
+            raise TieBroken(f"{erel}: enum {ename} has no readable variants")
+        enums[ename] = variants
     parsed = []
     fnsigs = {}
     for rel, cont, prefix, names in GROUPS[group]:
@@ -1095,10 +1221,15 @@ def translate(repo, group):
     for name, fields in structs.items():
         flds = "; ".join(f"{name}_{f} : {coq_type(t, structs, name)}" for f, t in fields)
         out.append(f"Record {name} := mk{name} {{ {flds} }}.")
+    for ename, variants in enums.items():
+        structs.setdefault(ename, [])      # so that coq_type accepts the name
+        out.append(f"Inductive {ename} := " + " | ".join(
+            f"{ename}_{v}" + "".join(f" ({f} : {coq_type(t, structs, ename)})" for f, t in flds) for v, flds in variants) + ".")
     out.append("")
     defs, deps = {}, {}
     for rel, prefix, fn, what in parsed:
         tr = Tr(structs, fnsigs, prefix, fn, what)
+        tr.enums = enums
         env = {}
         binders = []
         if fn["selfmode"]:
